@@ -13,20 +13,20 @@ TECH = {
  "C04": "static analysis (custom MIR rules): who-may-write the peer map / who-may-call event emission and the write lock, path-event language of the three mutators (exact word sets), value-origin dataflow of keys and event payloads, lock-acquisition multiplicity on the inlined view of subscribe(), must-pass-through of the handler-exit removal",
  "C05": "static analysis (custom MIR rules): decision-table extraction from the tie-break CFG + exhaustive enumeration of the 8 abstract order cases, value-origin dataflow of call arguments and origin tags, must-pass-through registration (no shortcut around the tie-break), stable-id guard words of the loser's clean-up, who-may-call on dial_peer (closed set of dial sources)",
  "C06": "static analysis (custom MIR rules): call-graph panic-site inventory from remote-driven entry points with re-checked justifications, tokio::select! arm words (sticky error values leave the loop), who-may-call close(), panic inventory of the typed-RPC layer",
- "C07": "static analysis (custom MIR rules): byte-map reconstruction of the preamble writer, edge-guarded reader words, constant/callee checks on the frame codec, sibling path-event words of encoder/decoder, closed decision tables for Version/StatusCode, type shape of raw headers",
+ "C07": "static analysis (custom MIR rules): byte-map reconstruction of the preamble writer, edge-guarded reader words, constant/callee checks on the frame codec, sibling path-event words of encoder/decoder, closed decision tables for Version/StatusCode, type shape of raw headers, serde helper attributes read from the definitions' source lines + hook-wrapper types of the derived impls",
  "C08": "static analysis (custom MIR rules): dominance order of teardown steps, tokio::select! arm words (sticky terminal values), API error-propagation dataflow, type-shape ownership, call-graph panic-site inventory, ms-unit discipline of Config accessors, ownership liveness across suspension points (strong peer map / service clones held at a yield), closed-world who-may-call on task spawning, type-shape rule on socket handles",
  "C09": "static analysis (custom MIR rules): value-origin dataflow (disconnect reason, transport config on every ClientConfig site), RAII liveness of a rejected connection, must-pass-through at handler exit, decision table of from_quinn_error, path-event words of the tie-break (loser closed explicitly), join-arm words of the manager loop (handler failure propagates)",
  "C10": "static analysis (custom MIR rules): decision-table extraction of inbound admission (affinity x limit x len>=limit normalised over operator forms), value-origin dataflow of key/len/limit, who-may-call the limit accessor (predicate helpers inlined into the path words), must-pass-through order at handler exit",
  "C11": "static analysis (custom MIR rules): decision-table extraction of min(header, default) in both directions (call- and comparison-form, 3-case evaluation), sibling agreement, poll path words, layer wiring by value-origin + resolved generic arguments, ms-unit discipline and purity of Config accessors, who-may-use the parse result (error absorbed)",
  "C12": "static analysis (custom MIR rules): must-pass-through in Drop, who-may-construct the stream wrapper, call-graph reachability (no spawn on the caller path), tokio::select! race arm words, JoinSet shutdown on all exits, watched-suspension-point rule over the request task's yields, closed-world who-may-call on task spawning",
  "C13": "static analysis (custom MIR rules): order-insensitive decision table of the eligibility predicate, value-origin dataflow of the backoff formula / rotation index / channel pairing / in-flight cap, drain-closure words, ms-unit discipline and purity of Config accessors",
- "C14": "static analysis (custom MIR rules): path-event language of both certificate verifiers (name checks on the right operands, assertion only on the any()==true edge), vec! element dataflow of the name lists, SNI resolver on every path, SNI argument origin",
- "C15": "static analysis (custom MIR rules): who-may-call/construct framed codecs, value-origin dataflow of the limit, must-pass-through on the None edge against the dependency's default (read from its source), raw-IO who-may-call, call-graph confinement",
+ "C14": "static analysis (custom MIR rules): path-event language of both certificate verifiers (name checks on the right operands, assertion only on the any()==true edge), vec! element dataflow of the name lists, SNI resolver on every path, SNI argument origin, who-may-write rustls config fields, stateful statics",
+ "C15": "static analysis (custom MIR rules): who-may-call/construct framed codecs, value-origin dataflow of the limit, must-pass-through on the None edge against the dependency's default (read from its source), raw-IO who-may-call, call-graph confinement, who-may-write Config fields (immutable after build)",
  "C16": "static analysis (custom MIR rules): path-event language of Router::call (exhaustive error variants), field-to-field dataflow of fallback/matcher through route_layer/merge, map-invariant dominance in route(), format! template decoding, panic inventory, type shape of the request-header conversion (total, no validation)",
  "C17": "static analysis (custom MIR rules): term reconstruction from format! templates and quote! token templates of the generator (client/server/name agreement), constants of the generated example code, path words of the rpc helpers, sibling header keys, panic inventory, path-event words of the Status/Response conversions, closed-world callees of the built-in rpc codecs and of the wire codec path",
- "C18": "static analysis (custom MIR rules): value-origin dataflow of the per-peer semaphore, wait-mode decision words, RAII liveness of the permit local across the awaited inner call, expected-zero who-may-call on permit leak APIs",
- "C19": "static analysis (custom MIR rules): value-origin dataflow of key and shared keyed limiter, wait-mode decision words (refusal never forwards), format!/header constant decoding",
- "C20": "static analysis (custom MIR rules): path-event language of RequireAuthorization::call and ResponseFuture::poll (exact word sets), decision table of AllowedPeers::authorize, who-may-write the allow-list",
+ "C18": "static analysis (custom MIR rules): value-origin dataflow of the per-peer semaphore, wait-mode decision words, RAII liveness of the permit local across the awaited inner call, expected-zero who-may-call on permit leak APIs, shape rules one layer out (field-by-field Clone, poll_ready delegation, stored-as-given maximum, derived PeerId Eq/Hash)",
+ "C19": "static analysis (custom MIR rules): value-origin dataflow of key and shared keyed limiter, wait-mode decision words (refusal never forwards), format!/header constant decoding, shape rules one layer out (field-by-field Clone, poll_ready delegation, derived PeerId Eq/Hash)",
+ "C20": "static analysis (custom MIR rules): path-event language of RequireAuthorization::call and ResponseFuture::poll (exact word sets), decision table of AllowedPeers::authorize, who-may-write the allow-list, shape rules one layer out (field-by-field Clone, poll_ready delegation, derived PeerId Eq/Hash)",
 }
 
 NA_REASONS = {}
